@@ -1032,6 +1032,13 @@ def _term(fl, e, at, ctxinfo, depth=0):
         e2, at2 = deref(fl, e, at)
         if e2 is not e:
             return _term(fl, e2, at2, ctxinfo, depth + 1)
+        # `left, middle, right = <triple>`: component k of the triple
+        defs = [d for d, sfx in fl.rd(e.id, at) if not sfx]
+        if len(defs) == 1 and defs[0].kind == "unpack" and len(defs[0].index) == 1 and isinstance(defs[0].index[0], int) and defs[0].value is not None:
+            lst = _symlist(fl, defs[0].value, defs[0].at, ctxinfo, depth + 1)
+            k = defs[0].index[0]
+            if lst is not None and -len(lst) <= k < len(lst):
+                return lst[k]
         return None
     if isinstance(e, ast.IfExp) and isinstance(e.test, ast.Compare) and len(e.test.ops) == 1 and isinstance(e.test.ops[0], (ast.Is, ast.IsNot)) \
             and isinstance(e.test.comparators[0], ast.Constant) and e.test.comparators[0].value is None and _term(fl, e.test.left, at, ctxinfo, depth + 1) == "CAP":
@@ -1242,6 +1249,8 @@ _SCAN_EMIT = "            path_arr.append((isave, i + 1, i - isave))"
 _JUMP = "        if (op1 < left and op2 >= right) or (op2 < left and op1 >= right):\n            pass\n        elif op2 >= left > op1 and not key_l:"
 
 VARIANTS = [
+    B("c10-selection-against-last-interface", TIS, "        trial_path, wf_int[0], wf_int[2], return_seg=True, ens_set=ens_set", "        trial_path, wf_int[0], ens_set[\"interfaces\"][2], return_seg=True, ens_set=ens_set", "R-10.5", why="seeded C10_f"),
+    K("c10-keep-selection-interfaces-unpacked", TIS, "    wf_int = list([ens_set[\"interfaces\"][1]] * 2) + [intf_cap]\n", "    _lo, middle, _hi = ens_set[\"interfaces\"]\n    wf_int = [middle, middle, intf_cap]\n"),
     # R-10.2: the transducer
     B("c10-left-bound-strict", TIS, _SCAN_OPEN_L, "        elif op2 > left > op1 and not key_l:\n            isave, key_l = i, True", "R-10.2", control=True, why="a frame exactly on the left interface is inside"),
     B("c10-right-right-counted", TIS, _SCAN_RR, "", "R-10.2", control=True, why="right-right runs must be discarded"),
